@@ -12,7 +12,9 @@ import time
 from harness.common import Collector
 from harness.docutils_util import parse
 
-TITLES = ["a", "a-1", "A", "a b", "a!", "a-1-1", "b", "`a`", "a *b*", "é ß", "a ![i](u)", "1", "a_b", "中"]
+TITLES = ["a", "a-1", "A", "a b", "a!", "a-1-1", "b", "`a`", "a *b*", "é ß", "a ![i](u)", "1", "a_b", "中",
+          # titles whose slug is empty or only separators (their uniqueness suffixes start from an empty base)
+          "!!!", "???", "-", "- -", "`!`", "-1"]
 
 
 def spec_title(md_title):
@@ -147,6 +149,10 @@ def run(tier, seed, extra):
             col.case(("seq", titles))
             check_sequence(col, hs, 2)
             cnt += 1
+    for titles in itertools.product(["!!!", "???", "-1", "a"], repeat=3):
+        col.case(("seq-empty", titles))
+        check_sequence(col, [(1, t) for t in titles], 2)
+        cnt += 1
     col.add_bound("anchors of heading sequences vs rule/uniqueness/CLI/resolution",
                   f"all title sequences of length <= {n} over {core!r} (level 1, depth 2)", cnt, time.time() - t0)
     t0 = time.time()
